@@ -98,6 +98,8 @@ def run_case(case):
         return run_atx_threads(case)
     if case.get("daliserver_threads"):
         return run_daliserver_threads(case)
+    if case.get("unsupported"):
+        return run_unsupported(case)
     if case["driver"] in ("daliserver", "atx"):
         return run_sync(case)
     obs = sc.run(case)
@@ -453,6 +455,63 @@ def run_atx_threads(case):
     return out
 
 
+# ------------------------------------------------- a frame the gateway cannot carry ----
+class _Stuck(Exception):
+    pass
+
+
+def run_unsupported(case):
+    """case: {"unsupported": true, "exceptions": bool|None, "k": 24-bit command kind, "via": "send"|"txn"}
+    The hasseb interface carries 16-bit frames only.  A 24-bit command handed to send() is refused with the library's
+    UnsupportedFrameTypeError - at once, whatever the caller said about exceptions (there is nothing to wait for), and
+    the lock is free afterwards.  A watchdog ends the case if the driver spins without yielding to the loop."""
+    import signal
+    from harness.gateways import HidSim
+    from dali import exceptions as X
+    sim = HidSim("hasseb", exceptions_on_send=True if case.get("exceptions") is None else bool(case["exceptions"]))
+    out = []
+
+    def alarm(*_a):
+        raise _Stuck()
+    old = signal.signal(signal.SIGALRM, alarm)
+    signal.setitimer(signal.ITIMER_REAL, 6.0)
+    where = "hasseb send(%s) of a 24-bit command with exceptions=%r" % (case["via"], case.get("exceptions"))
+    try:
+        sim.connect()
+        sim.handshake()
+        cmd = sc.build_cmd({"k": case["k"], "a": 5})
+        kw = {} if case.get("exceptions") is None else {"exceptions": bool(case["exceptions"])}
+
+        async def go():
+            if case["via"] == "txn":
+                async with sim.driver.transaction_lock:
+                    return await sim.driver.send(cmd, in_transaction=True, **kw)
+            return await sim.driver.send(cmd, **kw)
+        t = sim.start(go())
+        sim.drain(max_rounds=2000, max_virtual=20.0)
+        if not t.done():
+            out.append(("C16:hasseb:unsupported-frame-never-refused", "%s is still pending after 20 s of virtual time" % where))
+        elif t.exception() is None:
+            out.append(("C16:hasseb:unsupported-frame-accepted", "%s returned %r" % (where, sc.describe_response(t.result()))))
+        elif isinstance(t.exception(), _Stuck):
+            raise t.exception()
+        elif not isinstance(t.exception(), X.UnsupportedFrameTypeError):
+            out.append(("C16:hasseb:unsupported-frame-wrong-exception", "%s raised %r" % (where, t.exception())))
+        if sim.driver.transaction_lock.locked() and t.done():
+            out.append(("C16:hasseb:lock-held", "%s: the transaction lock is still held afterwards" % where))
+    except _Stuck:
+        out.append(("C16:hasseb:unsupported-frame-spins", "%s: the driver kept the event loop busy for 6 s of real time without "
+                    "refusing the frame (no await inside its retry loop)" % where))
+    finally:
+        signal.setitimer(signal.ITIMER_REAL, 0)
+        signal.signal(signal.SIGALRM, old)
+        try:
+            sim.close()
+        except Exception:  # noqa
+            pass
+    return out
+
+
 # ------------------------------------------------- the daliserver client used from two threads ----
 def run_daliserver_threads(case):
     """case: {"daliserver_threads": true, "a": value, "b": value, "twice": bool}
@@ -710,6 +769,18 @@ def _shard(arg):
             res.violation(sig, case, msg)
         res.sample(case, cls="atx two threads")
         return res
+    if kind == "unsupported":
+        for k in K24:
+            for ex in (None, True, False):
+                for via in ("send", "txn"):
+                    case = {"unsupported": True, "k": k, "exceptions": ex, "via": via}
+                    res.count()
+                    res.nontrivial()
+                    res.label("hasseb:24-bit-command-refused")
+                    for sig, msg in run_case(case):
+                        res.violation(sig, case, msg)
+        res.sample(case, cls="frame the gateway cannot carry")
+        return res
     if kind == "daliserver-threads":
         for k in range(4):
             case = {"daliserver_threads": True, "a": (0x31 + seed * 3 + k) % 255, "b": (0x92 + seed * 5 + 2 * k) % 255, "hold": 0.5}
@@ -739,6 +810,7 @@ def run(ctx):
     shards.append(("sync", None, ctx.seed * 1000 + 99, n))
     shards.append(("atx-threads", None, ctx.seed, 1))
     shards.append(("daliserver-threads", None, ctx.seed, 1))
+    shards.append(("unsupported", None, ctx.seed, 1))
     shards.append(("twin", None, ctx.seed * 1000 + 98, max(60, n // 6)))
     shards.append(("twin", None, ctx.seed * 1000 + 97, max(60, n // 6)))
     ctx.pmap(_shard, shards)
